@@ -2819,10 +2819,13 @@ class WBEMConnection:  # pylint: disable=too-many-instance-attributes
                         arg_name, type(bool_param)))
         return bool_param
 
-    def _get_rslt_params(self, result, namespace):
+    def _get_rslt_params(self, result, namespace, exp_class=None):
         """
         Common processing for pull results to separate end-of-sequence,
         enum-context, and entities in IRETURNVALUE.
+
+        If exp_class is not None, the entities in IRETURNVALUE must be
+        objects of that class.
 
         Returns tuple of entities in IRETURNVALUE, end_of_sequence,
         and enumeration_context)
@@ -2853,6 +2856,15 @@ class WBEMConnection:  # pylint: disable=too-many-instance-attributes
 
             elif p[0] == "IRETURNVALUE":
                 rtn_objects = p[2]
+                if exp_class is not None:
+                    for obj in rtn_objects:
+                        if not isinstance(obj, exp_class):
+                            raise CIMXMLParseError(
+                                _format("Expecting {0} objects in the result "
+                                        "of the open or pull operation, got "
+                                        "{1} object", exp_class.__name__,
+                                        obj.__class__.__name__),
+                                conn_id=self.conn_id)
 
         if not end_of_sequence_found and not enumeration_context_found:
             raise CIMXMLParseError(
@@ -7145,7 +7157,7 @@ class WBEMConnection:  # pylint: disable=too-many-instance-attributes
                 has_out_params=True)
 
             result_tuple = pull_inst_result_tuple(
-                *self._get_rslt_params(result, namespace))
+                *self._get_rslt_params(result, namespace, CIMInstance))
             return result_tuple
 
         except (CIMXMLParseError, XMLParseError) as exce:
@@ -7376,7 +7388,7 @@ class WBEMConnection:  # pylint: disable=too-many-instance-attributes
                 has_out_params=True)
 
             result_tuple = pull_path_result_tuple(
-                *self._get_rslt_params(result, namespace))
+                *self._get_rslt_params(result, namespace, CIMInstanceName))
             return result_tuple
 
         except (CIMXMLParseError, XMLParseError) as exce:
@@ -7659,7 +7671,7 @@ class WBEMConnection:  # pylint: disable=too-many-instance-attributes
                 has_out_params=True)
 
             result_tuple = pull_inst_result_tuple(
-                *self._get_rslt_params(result, namespace))
+                *self._get_rslt_params(result, namespace, CIMInstance))
             return result_tuple
 
         except (CIMXMLParseError, XMLParseError) as exce:
@@ -7912,7 +7924,7 @@ class WBEMConnection:  # pylint: disable=too-many-instance-attributes
                 has_out_params=True)
 
             result_tuple = pull_path_result_tuple(
-                *self._get_rslt_params(result, namespace))
+                *self._get_rslt_params(result, namespace, CIMInstanceName))
             return result_tuple
 
         except (CIMXMLParseError, XMLParseError) as exce:
@@ -8175,7 +8187,7 @@ class WBEMConnection:  # pylint: disable=too-many-instance-attributes
                 has_out_params=True)
 
             result_tuple = pull_inst_result_tuple(
-                *self._get_rslt_params(result, namespace))
+                *self._get_rslt_params(result, namespace, CIMInstance))
             return result_tuple
 
         except (CIMXMLParseError, XMLParseError) as exce:
@@ -8403,7 +8415,7 @@ class WBEMConnection:  # pylint: disable=too-many-instance-attributes
                 has_out_params=True)
 
             result_tuple = pull_path_result_tuple(
-                *self._get_rslt_params(result, namespace))
+                *self._get_rslt_params(result, namespace, CIMInstanceName))
             return result_tuple
 
         except (CIMXMLParseError, XMLParseError) as exce:
@@ -8632,7 +8644,8 @@ class WBEMConnection:  # pylint: disable=too-many-instance-attributes
                 MaxObjectCount=MaxObjectCount,
                 has_out_params=True)
 
-            insts, eos, enum_ctxt = self._get_rslt_params(result, namespace)
+            insts, eos, enum_ctxt = self._get_rslt_params(
+                result, namespace, CIMInstance)
 
             query_result_class = _GetQueryRsltClass(result) if \
                 ReturnQueryResultClass else None
@@ -8787,7 +8800,7 @@ class WBEMConnection:  # pylint: disable=too-many-instance-attributes
                 has_out_params=True)
 
             result_tuple = pull_inst_result_tuple(
-                *self._get_rslt_params(result, namespace))
+                *self._get_rslt_params(result, namespace, CIMInstance))
             return result_tuple
 
         except (CIMXMLParseError, XMLParseError) as exce:
@@ -8932,7 +8945,7 @@ class WBEMConnection:  # pylint: disable=too-many-instance-attributes
                 has_out_params=True)
 
             result_tuple = pull_path_result_tuple(
-                *self._get_rslt_params(result, namespace))
+                *self._get_rslt_params(result, namespace, CIMInstanceName))
             return result_tuple
 
         except (CIMXMLParseError, XMLParseError) as exce:
@@ -9071,7 +9084,7 @@ class WBEMConnection:  # pylint: disable=too-many-instance-attributes
                 has_out_params=True)
 
             result_tuple = pull_inst_result_tuple(
-                *self._get_rslt_params(result, namespace))
+                *self._get_rslt_params(result, namespace, CIMInstance))
             return result_tuple
 
         except (CIMXMLParseError, XMLParseError) as exce:
